@@ -195,7 +195,18 @@ def _init_worker(mode, known_dev):
         resource.setrlimit(resource.RLIMIT_AS, (cur + (3 << 30), cur + (3 << 30)))
     except (ValueError, OSError):
         pass
-    signal.signal(signal.SIGALRM, _alarm)
+    signal.signal(signal.SIGPROF, _alarm)
+    _W["slow"] = {}
+
+
+def cpu_limit(seconds):
+    """limit on the CPU time (never wall-clock: the machine may be loaded) of what follows; 0 switches it off"""
+    signal.setitimer(signal.ITIMER_PROF, seconds)
+
+
+CPU_ANALYSIS = 60          # CPU seconds for one analysis of an enumerated arrangement (it needs milliseconds)
+CPU_ALIAS = 8              # ... with an extreme LAParams value in place of its ratio
+CPU_SAMPLE = 240           # ... for the first pages of one sample file
 
 
 def pool_map(fn, jobs, mode, dev):
@@ -266,7 +277,7 @@ def replay_chunk(chunk):
     """chunk: list of groups (each a list of records with one key).  -> dict of counters and findings"""
     mode = _W["mode"]
     res = {"n": 0, "runs": 0, "dev": 0, "mismatch": [], "viol": [], "tie": 0, "tie_real": 0, "nontrivial": [],
-           "colpage": 0, "scalecmp": 0, "samples": [], "pred_evals": 0, "sim_tie": 0, "gridties": 0}
+           "colpage": 0, "scalecmp": 0, "samples": [], "pred_evals": 0, "sim_tie": 0, "gridties": 0, "alias_runs": 0, "alias_skipped": 0}
     for g in chunk:
         rs = parse_group(g)
         rec = rs[0]
@@ -283,25 +294,41 @@ def replay_chunk(chunk):
         nglyph = sum(1 for it in rec["page"] if it["k"] == "c")
         if nglyph >= 2:
             res["nontrivial"].append(hash(R.rec_key(rec)) & 0xFFFFFFFFFFFF)
-        for si, scale in enumerate(DIRECT_SCALES):
-            for rev in ((False, True) if si == 0 else (si % 2 == 1,)):
+        runs = [(scale, rev, None) for si, scale in enumerate(DIRECT_SCALES)
+                for rev in ((False, True) if si == 0 else (si % 2 == 1,))]
+        # extreme-but-valid LAParams (very large incl. inf, tiny positive) in place of the ratio that stands for them
+        runs += [(1, False, al) for al in R.la_aliases(rec["p"])]
+        la_base = R.la_of(rec["p"])
+        for scale, rev, alias in runs:
+            if True:
+                if alias is not None and _W["slow"].get(alias, 0) >= 2:
+                    res["alias_skipped"] += 1          # this value already ran out of CPU time twice in this worker
+                    continue
                 try:
-                    signal.alarm(60)
+                    cpu_limit(CPU_ANALYSIS if alias is None else CPU_ALIAS)
                     try:
-                        cont, chars, items, la = R.analyze_direct(rec, scale, rev=rev)
+                        cont, chars, items, la = R.analyze_direct(rec, scale, rev=rev, alias=alias)
                     finally:
-                        signal.alarm(0)
+                        cpu_limit(0)
                 except MachineryError:
                     raise
                 except AnalysisTimeout:
-                    res["viol"].append(("no-termination", "analyze of a page of %d items did not return within 60 s" % len(rec["page"]),
-                                        dict(short(rec), scale=str(scale))))
+                    if alias is not None:
+                        _W["slow"][alias] = _W["slow"].get(alias, 0) + 1
+                    res["viol"].append(("no-termination", "analyze of a page of %d items did not return within %d s of CPU time%s"
+                                        % (len(rec["page"]), CPU_ANALYSIS if alias is None else CPU_ALIAS,
+                                           "" if alias is None else " with %s=%r" % (R.FIELDS[alias[0]], alias[1])),
+                                        dict(short(rec), scale=str(scale), alias=repr(alias))))
                     continue
                 except (Exception, MemoryError) as e:  # the analysis itself failed: termination / totality
                     res["viol"].append(("exception:" + type(e).__name__,
-                                        "analyze raised %s: %s" % (type(e).__name__, str(e)[:200]),
-                                        dict(short(rec), scale=str(scale))))
+                                        "analyze raised %s: %s%s" % (type(e).__name__, str(e)[:200],
+                                                                     "" if alias is None else " with %s=%r" % (R.FIELDS[alias[0]], alias[1])),
+                                        dict(short(rec), scale=str(scale), alias=repr(alias))))
                     continue
+                if alias is not None:
+                    res["alias_runs"] += 1
+                    la = la_base                        # the predicates are evaluated with the ratio (exact arithmetic)
                 got = (R.project(cont, chars, items, scale), R.proj_groups(cont, scale))
                 res["runs"] += 1
                 if first is None:
@@ -323,7 +350,7 @@ def replay_chunk(chunk):
                         for key, msg in O.c08_failures(cont, list(items), la):
                             res["viol"].append((key, msg, dict(short(rec), scale=str(scale), rev=rev, observed=repr(got)[:1200])))
                     continue
-                check_pred = (not ok) or (res["n"] % 16 == 1 and si == 0 and not rev)
+                check_pred = (not ok) or (res["n"] % 16 == 1 and scale == 1 and not rev and alias is None)
                 fails = []
                 if check_pred:
                     res["pred_evals"] += 1
@@ -370,7 +397,7 @@ def replay_chunk(chunk):
                                             dict(short(rec), scale=str(scale), at_scale=repr(got)[:1200], at_1=repr(base)[:1200])))
         if tie:
             a = per_scale.get(1, [])
-            if len(a) == 2 and a[0][1] != a[1][1]:
+            if len(a) >= 2 and a[0][1] != a[1][1]:
                 res["tie_real"] += 1
         if rec.get("colpage"):
             res["colpage"] += 1
@@ -545,7 +572,8 @@ def direction_a(ck, mode, invariants, dev, pdf_every, pdf_scales, pdf_text_every
     outs = tlc_direction_a(ck, invariants, dev, extra_jobs)
     t0 = time.time()
     paths, names = bucketize(ck, sorted(outs, key=lambda x: x[0] == "simulate"))
-    tot = {"n": 0, "runs": 0, "dev": 0, "tie": 0, "tie_real": 0, "colpage": 0, "scalecmp": 0, "pred_evals": 0, "sim_tie": 0, "gridties": 0}
+    tot = {"n": 0, "runs": 0, "dev": 0, "tie": 0, "tie_real": 0, "colpage": 0, "scalecmp": 0, "pred_evals": 0, "sim_tie": 0, "gridties": 0,
+           "alias_runs": 0, "alias_skipped": 0}
     pdf = {"pages": 0, "docs": 0, "dev": 0, "text": 0, "scalecmp": 0, "gridties": 0}
     per_family = {}
     mismatches = []
@@ -588,6 +616,9 @@ def direction_a(ck, mode, invariants, dev, pdf_every, pdf_scales, pdf_text_every
     ck.evaluations += tot["runs"] + pdf["pages"]
     ck.replayed += tot["n"]
     ck.extra["direct_runs"] = tot["runs"]
+    ck.extra["runs_with_extreme_laparams_values"] = tot["alias_runs"]
+    if tot["alias_skipped"]:
+        ck.extra["extreme_laparams_runs_skipped_after_timeouts"] = tot["alias_skipped"]
     ck.extra["pdf_pages_analysed"] = pdf["pages"]
     ck.extra["pdf_documents"] = pdf["docs"]
     ck.extra["pdf_extract_text_pages"] = pdf["text"]
@@ -641,17 +672,17 @@ def record_file(args):
            "skipped": 0, "glyphs": 0}
     rec = O.Recorder(max_heap_boxes=max_heap_boxes)
     try:
-        signal.alarm(240)
+        cpu_limit(CPU_SAMPLE)
         try:
             with rec:
                 for _ in extract_pages(path, laparams=la, maxpages=maxpages):
                     pass
         finally:
-            signal.alarm(0)
+            cpu_limit(0)
     except MachineryError:
         raise
     except AnalysisTimeout:
-        out["fail08"].append(("no-termination", "layout analysis of the first pages did not return within 240 s",
+        out["fail08"].append(("no-termination", "layout analysis of the first pages did not return within 240 s of CPU time",
                               "%s %s" % (os.path.relpath(path, "/repo"), la_kwargs)))
         return out
     except MemoryError:
